@@ -89,6 +89,14 @@ pub fn base_out(h: &Honest, ran: &mut Ran, trace: bool) -> CaseOut {
         out.trace = ran.w.trace.take();
         if let Some(t) = &mut out.trace {
             t.push(format!("SCENARIO {}", h.describe()));
+            for (k, f) in &ran.w.led.flows {
+                if !f.complete() {
+                    t.push(format!(
+                        "FLOW {k:?} written={} fin={:?} reset={:?} finished_evt={} stopped_seen={:?} delivered={:?} eos={} recv_reset={:?} recv_stop={:?} unordered={}",
+                        f.written, f.fin_at, f.reset, f.finished_evt, f.stopped_seen, f.delivered.as_slice(), f.eos, f.recv_reset, f.recv_stop, f.unordered
+                    ));
+                }
+            }
         }
     }
     out
